@@ -247,7 +247,9 @@ func c17StartingPhase(p *load.Program, r *core.Report, appT *types.Named, start,
 	if flag == nil {
 		// mutex held by start over the loop: pairing is decided by the lock-pairing data flow
 		r.OK(rule, key, fn, p.Pos(inTerm[mutexGuard][0].Pos()), inst, "mutex "+mutexGuard+": locked by start before the first spawn and by terminate before the group is touched")
-		lockPairing(p, r, rule, "C17.A9", 0, func(o string) bool { return strings.HasSuffix(o, "node.application") || strings.Contains(o, "application") })
+		lockPairing(p, r, rule, "C17.A9", 0, func(o string) bool {
+			return strings.HasSuffix(o, "node.application") || strings.Contains(o, "application")
+		})
 		return
 	}
 	r.OK(rule, key, fn, p.Pos(flag.load.Pos()), inst, fmt.Sprintf("phase flag %s: start stores %v before the first spawn, terminate loads it before any group access", flag.path, flag.c))
@@ -695,42 +697,54 @@ func c10StopSeesLateSpawns(p *load.Program, r *core.Report, a *Anchors) {
 		return
 	}
 	used := ""
+	// spawn itself and the node methods it calls after the registration (the flag test may live
+	// in a helper of its own: "ask it to stop if the node is stopping")
+	scan := []*ssa.Function{spawn}
 	eachInstr(spawn, func(in ssa.Instruction) {
-		var addr ssa.Value
-		var val ssa.Value
-		if c, ok := in.(*ssa.Call); ok && isAtomic(c.Common()) && strings.HasPrefix(staticCallee(c.Common()).Name(), "Load") {
-			addr, val = c.Common().Args[0], c
-		} else if u, ok := in.(*ssa.UnOp); ok && u.Op == token.MUL {
-			addr, val = u.X, u
-		}
-		if addr == nil {
-			return
-		}
-		_, path, okp := fieldPath(addr)
-		if !okp || len(path) != 1 || flags[path[0]] == nil || !instrDominates(reg, in) {
-			return
-		}
-		// some comparison of the loaded value whose one edge reaches an exit sent to the new process
-		if refs := val.Referrers(); refs != nil {
-			for _, x := range *refs {
-				b, ok := x.(*ssa.BinOp)
-				if !ok {
-					continue
-				}
-				t, fl, complete := boolEdges(b)
-				if !complete {
-					continue
-				}
-				for _, es := range [][]Edge{t, fl} {
-					if reaches(edgePoints(es), func(y ssa.Instruction) bool { return y == in }, func(y ssa.Instruction) bool {
-						return callsNamed(y, "RouteSendExit", "sendExitMessage", "Kill")
-					}) != nil {
-						used = path[0]
-					}
-				}
+		if cc := callCommon(in); cc != nil && instrDominates(reg, in) {
+			if g := staticCallee(cc); g != nil && recvIs(g, a.NodeT) && len(g.Blocks) > 0 && g != spawn && !strings.HasPrefix(g.Name(), "Route") {
+				scan = append(scan, g)
 			}
 		}
 	})
+	for _, sf := range scan {
+		eachInstr(sf, func(in ssa.Instruction) {
+			var addr ssa.Value
+			var val ssa.Value
+			if c, ok := in.(*ssa.Call); ok && isAtomic(c.Common()) && strings.HasPrefix(staticCallee(c.Common()).Name(), "Load") {
+				addr, val = c.Common().Args[0], c
+			} else if u, ok := in.(*ssa.UnOp); ok && u.Op == token.MUL {
+				addr, val = u.X, u
+			}
+			if addr == nil {
+				return
+			}
+			_, path, okp := fieldPath(addr)
+			if !okp || len(path) != 1 || flags[path[0]] == nil || (sf == spawn && !instrDominates(reg, in)) {
+				return
+			}
+			// some comparison of the loaded value whose one edge reaches an exit sent to the new process
+			if refs := val.Referrers(); refs != nil {
+				for _, x := range *refs {
+					b, ok := x.(*ssa.BinOp)
+					if !ok {
+						continue
+					}
+					t, fl, complete := boolEdges(b)
+					if !complete {
+						continue
+					}
+					for _, es := range [][]Edge{t, fl} {
+						if reaches(edgePoints(es), func(y ssa.Instruction) bool { return y == in }, func(y ssa.Instruction) bool {
+							return callsNamed(y, "RouteSendExit", "sendExitMessage", "Kill")
+						}) != nil {
+							used = path[0]
+						}
+					}
+				}
+			}
+		})
+	}
 	if used == "" {
 		if len(flags) == 0 {
 			r.Bad(rule, key1, fname(stop), p.Pos(walk.Pos()), inst1, "no field of the node is set before the walk: a process registered after the walk passed is never asked to terminate and Stop waits for it for ever")
